@@ -30,8 +30,22 @@ PROPS = ["C01", "C03", "C04", "C05", "C06", "C08", "C12", "C13", "C14", "C15", "
 
 # (runs, wall cap seconds) per tier; a batch ends at whichever comes first.
 TIERS = {
-    "quick": {"default": (1500, 75), "C20": (16000, 90), "C06": (12000, 80), "C08": (4000, 90), "C15": (1000, 100), "C19": (120, 80), "C16": (900, 75), "C13": (1500, 80)},
-    "thorough": {"default": (60000, 1200), "C15": (6000, 1500), "C19": (4000, 1200)},
+    # a batch ends at whichever comes first: the run count or the wall cap (seconds)
+    "quick": {
+        "default": (30000, 40),
+        "C01": (8000, 45),
+        "C05": (6000, 50),
+        "C06": (16000, 60),
+        "C08": (6000, 75),
+        "C12": (8000, 50),
+        "C13": (12000, 45),
+        "C14": (8000, 60),
+        "C15": (1200, 80),
+        "C16": (8000, 50),
+        "C19": (400, 60),
+        "C20": (20000, 60),
+    },
+    "thorough": {"default": (400000, 1200), "C15": (25000, 1500), "C19": (8000, 1200)},
 }
 CHUNK = {"default": 12, "C15": 2, "C19": 4}
 TASK_TIMEOUT = 900  # wall guard per chunk: only for a worker stuck inside a C extension
